@@ -112,6 +112,20 @@ def conformance_rules(ctx, rule, only_modules=None, chain=CHAIN):
                                 pos[i], t.qualname, ', '.join(pos), a.id),
                             nontrivial=(fi.qualname, t.qualname) in chain,
                             loc=cs.where())
+    # a helper the rules do not know by name (extracted by a refactoring)
+    # is transparent: an edge into it continues with its own edges
+    known = prog.known_funcs()
+    if known is not None:
+        grew = True
+        while grew:
+            grew = False
+            for (a, h) in list(seen_edges):
+                if h in known:
+                    continue
+                for (h2, b) in list(seen_edges):
+                    if h2 == h and (a, b) not in seen_edges:
+                        seen_edges.add((a, b))
+                        grew = True
     for a, b in chain:
         ctx.ob(rule, a, 'chain-edge:%s' % b.split('.', 1)[1],
                (a, b) in seen_edges,
